@@ -63,10 +63,7 @@ def Outcome.mapv {α β} (f : α → β) : Outcome α → Outcome β
   | .err e => .err e
   | .panic p => .panic p
 
-structure RdSt where
-  fs : List Val
-  seen : List Nat := []
-  unk : Bytes := []
+abbrev RdSt := LoopSt
 
 mutual
 /-- read one transmitted value `tv` as a value of (dereferenced) type `t` into a slot holding `dest` -/
@@ -123,36 +120,34 @@ def readFields (P : Params) (S : Schema) (total : Nat) (fuel : Nat) (sd : SDesc)
     List (Nat × TVal) → Nat → RdSt → Outcome RdSt
   | [], _, st => .ok st
   | (id, v) :: r, tail, st =>
-    let tailV := (serFields r).length + tail      -- bytes after this field's value
-    let known : Option (Nat × Field) :=
-      match findField sd.fields id 0 with
-      | some (ix, f) => if f.ty.wire = v.tag then some (ix, f) else none
-      | none => none
-    match known with
+    match lookupKnown sd id v.tag with
     | none =>
       if skipNeed v > P.skipDepth then .err .depth
       else
-        let st' := if sd.hasHolder then { st with unk := st.unk ++ serField id v } else st
-        readFields P S total fuel sd r tail st'
+        readFields P S total fuel sd r tail
+          (if sd.hasHolder then { st with unk := st.unk ++ serField id v } else st)
     | some (ix, f) =>
-      let slot := st.fs.getD ix default
-      let res : Outcome Val :=
-        if specFixed f.ty.tt > 0 then (readFixed f.ty.tt v).mapv (wrapPtr f.ty)
-        else if f.nocopy then (readStr f.ty.isBinary true total tailV v).mapv (wrapPtr f.ty)
-        else (readVal P S total fuel f.ty.deref v tailV (freshTarget S f.ty slot)).mapv (wrapPtr f.ty)
-      match res with
+      -- the value is followed by the remaining fields, the STOP byte and whatever trails
+      match readField P S total fuel f v ((serFields r).length + tail) (st.fs.getD ix default) with
       | .ok x => readFields P S total fuel sd r tail { st with fs := st.fs.set ix x, seen := f.id :: st.seen }
       | .err e => .err e
       | .panic p => .panic p
+/-- one known field: fixed-size value, `nocopy` view, or a recursive read into the slot -/
+def readField (P : Params) (S : Schema) (total : Nat) (fuel : Nat) (f : Field) (v : TVal) (tail : Nat) (slot : Val) :
+    Outcome Val :=
+  if specFixed f.ty.tt > 0 then (readFixed f.ty.tt v).mapv (wrapPtr f.ty)
+  else if f.nocopy then (readStr f.ty.isBinary true total tail v).mapv (wrapPtr f.ty)
+  else (readVal P S total fuel f.ty.deref v tail (freshTarget S f.ty slot)).mapv (wrapPtr f.ty)
+/-- one element / key / value -/
+def readSlot (P : Params) (S : Schema) (total : Nat) (fuel : Nat) (t : Ty) (x : TVal) (tail : Nat) (slot : Val) :
+    Outcome Val :=
+  if specFixed t.tt > 0 then (readFixed t.tt x).mapv (wrapPtr t)
+  else (readVal P S total fuel t.deref x tail (freshTarget S t slot)).mapv (wrapPtr t)
 def readList (P : Params) (S : Schema) (total : Nat) (fuel : Nat) (et : Ty) :
     List TVal → Nat → Outcome (List Val)
   | [], _ => .ok []
   | x :: r, tail =>
-    let tailX := (serList r).length + tail
-    let one : Outcome Val :=
-      if specFixed et.tt > 0 then (readFixed et.tt x).mapv (wrapPtr et)
-      else (readVal P S total fuel et.deref x tailX (freshTarget S et (zeroVal S S.length et))).mapv (wrapPtr et)
-    match one with
+    match readSlot P S total fuel et x ((serList r).length + tail) (zeroVal S S.length et) with
     | .ok v =>
       match readList P S total fuel et r tail with
       | .ok vs => .ok (v :: vs)
@@ -164,17 +159,9 @@ def readEntries (P : Params) (S : Schema) (total : Nat) (fuel : Nat) (kt vt : Ty
     List (TVal × TVal) → Nat → List (Val × Val) → Outcome (List (Val × Val))
   | [], _, acc => .ok acc
   | (a, b) :: r, tail, acc =>
-    let tailB := (serEntries r).length + tail
-    let tailA := (ser b).length + tailB
-    let rk : Outcome Val :=
-      if specFixed kt.tt > 0 then (readFixed kt.tt a).mapv (wrapPtr kt)
-      else (readVal P S total fuel kt.deref a tailA (freshTarget S kt (zeroVal S S.length kt))).mapv (wrapPtr kt)
-    match rk with
+    match readSlot P S total fuel kt a ((ser b).length + ((serEntries r).length + tail)) (zeroVal S S.length kt) with
     | .ok k =>
-      let rv : Outcome Val :=
-        if specFixed vt.tt > 0 then (readFixed vt.tt b).mapv (wrapPtr vt)
-        else (readVal P S total fuel vt.deref b tailB (freshTarget S vt (zeroVal S S.length vt))).mapv (wrapPtr vt)
-      match rv with
+      match readSlot P S total fuel vt b ((serEntries r).length + tail) (zeroVal S S.length vt) with
       | .ok v => readEntries P S total fuel kt vt r tail (mapInsert kt acc k v)
       | .err e => .err e
       | .panic p => .panic p
